@@ -221,9 +221,13 @@ func (c *Ctx) finish(verifDir string, wall float64, seed int64, evidencePath str
 			meta("CANARY", k, "expected canary obligation was not produced at all")
 		}
 	}
-	for _, r := range c.Rules {
-		if a := per[r.ID]; a.Sites < r.Floor {
-			meta("FLOOR", r.ID, fmt.Sprintf("rule matched %d sites, fewer than the %d confirmed by hand (vacuity guard)", a.Sites, r.Floor))
+	if len(problems) == 0 {
+		// vacuity guard; only meaningful when nothing else is wrong (a broken
+		// anchor or an undecided site already explains a low count)
+		for _, r := range c.Rules {
+			if a := per[r.ID]; a.Sites < r.Floor {
+				meta("FLOOR", r.ID, fmt.Sprintf("rule matched %d sites, fewer than the floor of %d (vacuity guard: the rule no longer finds the constructs it was confirmed on)", a.Sites, r.Floor))
+			}
 		}
 	}
 	sort.SliceStable(problems, func(i, j int) bool { return problems[i].Pos < problems[j].Pos })
